@@ -61,6 +61,24 @@ DIFFERENT = [
      'def f(a):\n    a = 5\n    return a + 1 + a'),
 ]
 
+DIFFERENT += [
+    ('enumerate over a list the body changes',
+     'def f(xs):\n    for i, e in enumerate(xs):\n        xs.append(e)\n        g(e)',
+     'def f(xs):\n    for i in range(len(xs)):\n        xs.append(xs[i])\n        g(xs[i])'),
+    ('statement after a try moved into its else clause (skipped when a handler falls through)',
+     'def f(self):\n    try:\n        self.a()\n    except KeyError:\n        self.log()\n    self.b()',
+     'def f(self):\n    try:\n        self.a()\n    except KeyError:\n        self.log()\n    else:\n        self.b()'),
+    ('call with side effects evaluated once or twice',
+     'def f(self):\n    a, b = self.read()\n    return a + b',
+     'def f(self):\n    return self.read()[0] + self.read()[1]'),
+    ('constant initialisation moved below the call whose handler reads it',
+     'def f(self):\n    n = 0\n    try:\n        self.a()\n        n = 1\n    except KeyError:\n        return n\n    return n',
+     'def f(self):\n    try:\n        self.a()\n        n = 1\n    except KeyError:\n        n = 0\n        return n\n    return n'),
+    ('helper inlined with its arguments swapped',
+     'def f(self, a, b):\n    return self._h(a, b)',
+     'def f(self, a, b):\n    return self._h(b, a)'),
+]
+
 SAME = [
     ('guard clause', 'def f(x):\n    if x:\n        return g(x)\n    else:\n        return 0', 'def f(x):\n    if not x:\n        return 0\n    return g(x)'),
     ('extracted local', 'def f(a, b):\n    return h(a[1:3], b)', 'def f(a, b):\n    part = a[1:3]\n    return h(part, b)'),
@@ -68,6 +86,12 @@ SAME = [
     ('conditional expression', 'def f(c, a, b):\n    if c:\n        return a\n    return b', 'def f(c, a, b):\n    return a if c else b'),
     ('De Morgan', 'def f(a, b):\n    if not (a == 1 or b == 2):\n        return 1\n    return 0', 'def f(a, b):\n    if a != 1 and b != 2:\n        return 1\n    return 0'),
     ('format to f-string', "def f(a):\n    return 'x{:d}y'.format(a)", "def f(a):\n    return f'x{a:d}y'"),
+    ('else after raising handlers', 'def f(m, r):\n    try:\n        v = m[r]\n    except KeyError:\n        raise E(r)\n    else:\n        return v',
+     'def f(m, r):\n    try:\n        v = m[r]\n    except KeyError:\n        raise E(r)\n    return v'),
+    ('enumerate over a stable list', 'def f(self, out):\n    for i in range(len(self.xs)):\n        out[i] = self.xs[i]',
+     'def f(self, out):\n    for i, e in enumerate(self.xs):\n        out[i] = e'),
+    ('loop to comprehension', 'def f(xs):\n    out = []\n    for x in xs:\n        if x.ok:\n            out.append(x.v)\n    return out',
+     'def f(xs):\n    return [x.v for x in xs if x.ok]'),
 ]
 
 
